@@ -160,7 +160,9 @@ SRC_TIE = {
     'C12': {'Pds': ['_pds_to_dict', '_icc_to_dict', '_pds_to_de']},
     'C13': {'Pin': ['Iso0PinBlock.to_bytes', 'Iso0PinBlock.from_bytes', 'Iso4PinBlock.to_bytes', 'Iso4PinBlock.from_bytes']},
     'C14': {'Misc': ['_get_tsp', '_pan_prefix'],
-            'Pin': ['calculate_pvv_decimalise', 'get_zone_master_key_combine']},
+            'Pin': ['calculate_pvv_decimalise', 'get_zone_master_key_combine'],
+            'Keys': ['calculate_kcv', 'encrypt_key', 'get_zone_master_key', 'get_enc_zone_master_key', 'calculate_pvv',
+                     '_get_tsp']},
     'C15': {'Card': ['calculate_check_digit', 'validate_check_digit', 'add_check_digit', 'mask']},
     'C16': {'Card': ['calculate_check_digit', 'validate_check_digit', 'add_check_digit', 'mask'],
             'Misc': ['_get_tsp', '_pan_prefix']},
